@@ -76,7 +76,8 @@ struct Dom
     static std::vector<std::string> seeds(eng::engine_schema)
     {
         // the empty library, and one in which a crate was created and removed again (so ids and rowids are offset)
-        return {"", "create_root(|a);remove_crate(0)"};
+        // and two forests that the depth bound alone does not reach in the quick tier: a chain of four and a root with two children
+        return {"", "create_root(|a);remove_crate(0)", "@2:create_root(|a);create_sub(0|b);create_sub(1|a);create_sub(2|b)", "@1:create_root(|a);create_sub(0|a);create_sub(0|b)"};
     }
     static std::vector<Op> alphabet(const Model& m, const World&, int)
     {
@@ -364,7 +365,7 @@ int run(const Options& o)
     c["rule"] =
         "Explicit-state BFS on the real library for each schema version. Alphabet in every state: create_root_crate(n), create_sub_crate(p,n) for every live p, set_name(c,n), "
         "set_parent(c,p) for every live p (including c itself and every descendant) and for none, remove_crate(c); names n in {a, b, '', 'x;y'}; at most 4 live / 5 created crates; "
-        "seeds: empty library and a library in which a crate was created and removed. After every transition the reference forest (id -> name, parent) is compared with crates(), "
+        "seeds: empty library, a library in which a crate was created and removed, a chain of four crates (entering two levels late) and a root with two children (one level late). After every transition the reference forest (id -> name, parent) is compared with crates(), "
         "parent(), name(), children(), descendants(), root_crates(), crate_by_id, crates_by_name, root_crate_by_name, sub_crate_by_name, is_valid()/id() of live and removed handles. "
         "A state is the canonical dump of all tables; non-trivial = distinct states whose forest has depth >= 2. States that violate the property are reported and not expanded further.";
     c["exhaustive"] = exhaustive;
